@@ -32,6 +32,7 @@ const (
 	probeC11OpFault
 	probeCallbackAbort
 	probePoolRenewed
+	probeSubtreeKept
 )
 
 var probeNames = map[int]string{
@@ -41,6 +42,7 @@ var probeNames = map[int]string{
 	probeBlockBoundary: "pool_block_boundary_crossed", probeNondetReference: "nondeterministic_reference",
 	probeErrCallback: "error_callback_fired", probeVisitorAbort: "visitor_abort_fired", probeC11OpFault: "operation_aborted_by_writer_fault_or_visitor_abort", probeCallbackAbort: "parse_aborted_by_panicking_error_callback",
 	probePoolRenewed: "pool_dropped_and_replaced_while_objects_kept",
+	probeSubtreeKept: "root_dropped_one_statement_kept",
 }
 
 var (
@@ -111,6 +113,7 @@ func main() {
 		os.Exit(3)
 	}
 	cliFSRoot = *outPath + ".fs"
+	lightEnd = s.Light
 	res := &scn.Result{Prop: s.Prop, RunSeed: s.RunSeed, Faults: map[string]int64{}, Probes: map[string]int64{}, KnobState: knobState}
 	switch {
 	case *iso == -2:
